@@ -80,11 +80,11 @@ structure HInv (S : HSys) : Prop where
   inv : Inv S.sys
   cancelled : S.reading = false → S.onStop = .cancel → S.ctxDone = true
 
-/-- the handler has left, its code neither drains nor do the producers watch the context, and the exporter still has
-    a chunk to hand over -/
+/-- the handler has left, its code does not drain (it abandons the channel, or it only cancels a context that the
+    producers' sends do not watch), and the exporter still has a chunk to hand over -/
 structure Abandoned (S : HSys) : Prop where
   left : S.reading = false
-  code : S.onStop = .abandon
+  code : S.onStop ≠ .drain
   nosel : S.sel = false
   pos : 0 < S.sys.n
   pending : (S.sys.stg (S.sys.n - 1)).buf ≠ []
